@@ -46,7 +46,7 @@ RULE = (
     "case = (pool model, mode cache|codegen, fault kind, crash point).  truncate: the complete "
     "cache file is cut at offset n and given an mtime newer than the source so that the reader "
     "really unpickles it; quick sweeps EVERY offset 0..len of 2 pool models (offsets n with "
-    "n % shards == shard) and ~1200 Hypothesis-drawn offsets of the other 6, thorough sweeps "
+    "n % shards == shard) and ~1300 Hypothesis-drawn offsets of the other 6, thorough sweeps "
     "every offset of the 7 small models and every 8th offset of Big (160 kB cache, 4 write "
     "calls); the pickle frame headers/ends, the write-call boundaries, the start/end of every payload "
     "> 256 bytes (the serialised CasADi functions), the first 16 and last 4 offsets of every "
@@ -54,8 +54,8 @@ RULE = (
     "(k=1: file opened, nothing written), with and without a short write of half the chunk.  "
     "interleave: every (pa, pb): writer paused after pa = 0..W of its W writes, reader runs to "
     "completion (pb=-1) or is itself paused after pb = 0..W writes of its re-save while the "
-    "first writer finishes.  codegen (8 cases per quick run, spread over kind x model x "
-    "position; 16 + 160 drawn in thorough): libraries present, cache missing / cut at a permille "
+    "first writer finishes.  codegen (4 cases per quick run, spread over kind x model x "
+    "position and rotating with the seed; 16 + 160 drawn in thorough): libraries present, cache missing / cut at a permille "
     "of its length / write crashed / writer paused before its first write.  After each fault: next call must not raise and must equal the "
     "uncached compile, the call after that must be a CachedModel and equal.  Equality = "
     "vf.canon.compare_models (names, order, types, outputs, alias relation, attributes at "
@@ -323,12 +323,28 @@ class patched_open:
 # --------------------------------------------------------------------------
 # per-process pool state
 # --------------------------------------------------------------------------
+def limit_address_space(cap=4 << 30):
+    """Unpickling garbage can ask for a buffer of any size (a length field read from the wrong
+    place): seen with the append-mode mutant, where one worker grew to 21 GB, was OOM-killed and
+    left the runner's Pool.map waiting for ever.  With a cap (a worker peaks at ~1 GB virtual)
+    such a load raises MemoryError instead, which the oracle reports like any other exception."""
+    try:
+        import resource
+
+        soft, hard = resource.getrlimit(resource.RLIMIT_AS)
+        if soft == resource.RLIM_INFINITY or soft > cap:
+            resource.setrlimit(resource.RLIMIT_AS, (cap, hard))
+    except (ImportError, ValueError, OSError):
+        pass
+
+
 class World:
     def __init__(self, ctx):
         import pymoca.backends.casadi.api as api
         from vf import env
 
         env.pin_version()  # after importing api: api.__version__ is an import-time copy
+        limit_address_space()
         self.api = api
         self.ctx = ctx
         self.t0 = int(time.time()) - 7200  # mtime given to sources (ordering only, no oracle)
@@ -694,69 +710,61 @@ def run_list(ctx, cases):
     return True
 
 
-def mine(ctx, seq, salt=0):
-    return [c for i, c in enumerate(seq) if (i + salt) % ctx.nshards == ctx.shard]
+def owners(ctx, name):
+    """Shards that run the per-model enumerations of `name` (each shard then only has to
+    compile the models it owns, plus the swept ones)."""
+    j = NAMES.index(name) % min(ctx.nshards, len(NAMES))
+    return [s for s in range(ctx.nshards) if s % len(NAMES) == j]
+
+
+def mine(ctx, name, seq, salt=0):
+    own = owners(ctx, name)
+    if ctx.shard not in own:
+        return []
+    rank = own.index(ctx.shard)
+    return [c for i, c in enumerate(seq) if (i + salt) % len(own) == rank]
 
 
 def shard(ctx):
-    _T=[time.time()]
-    def lap(k):
-        ctx.extra['t_ms:'+k]+=int(1000*(time.time()-_T[0])); _T[0]=time.time()
-    ctx.extra['t_ms:startup']+=int(1000*(time.time()-ctx.t0))
     w = world(ctx)
-    infos = {name: w.prepare(name) for name in NAMES}
-    for name in NAMES:
-        if ctx.shard == 0:
+    swept = list(EXHAUSTIVE_QUICK) if ctx.tier == "quick" else list(NAMES)
+    owned = [name for name in NAMES if ctx.shard in owners(ctx, name)]
+    infos = {name: w.prepare(name) for name in NAMES if name in owned or name in swept}
+    for name in owned:
+        if owners(ctx, name)[0] == ctx.shard:
             ctx.extra["cache_len:" + name] = len(infos[name]["bytes"])
             ctx.extra["write_calls:" + name] = len(infos[name]["writes"])
-            ctx.extra["cache_bytes_reproducible:" + name] = int(infos[name]["deterministic"])
+            ctx.extra["cache_bytes_reproducible:" + name] = int(bool(infos[name]["deterministic"]))
 
-    lap('prepare')
-    # 0. frame / payload / write boundaries of every model
-    special = []
-    for name in NAMES:
-        for n in infos[name]["interesting"]:
-            special.append({"model": name, "mode": "cache", "fault": "truncate", "n": n, "full": True})
-    run_list(ctx, mine(ctx, special, salt=ctx.seed + 11))
-
-    lap('special')
-    # 1. every write() call of every model crashes (with/without a short write)
-    crash = []
-    for name in NAMES:
+    for name in owned:
         nw = len(infos[name]["writes"])
-        for k in range(1, nw + 2):  # nw + 1: control, no write crashes
-            for partial in (False, True):
-                if k == nw + 1 and partial:
-                    continue
-                crash.append({"model": name, "mode": "cache", "fault": "write_crash", "k": k, "partial": partial})
-    run_list(ctx, mine(ctx, crash, salt=ctx.seed))
+        # 0. frame / payload / write boundaries
+        special = [{"model": name, "mode": "cache", "fault": "truncate", "n": n, "full": True} for n in infos[name]["interesting"]]
+        run_list(ctx, mine(ctx, name, special, salt=ctx.seed))
+        # 1. every write() call crashes (with/without a short write); nw + 1: control, nothing crashes
+        crash = [{"model": name, "mode": "cache", "fault": "write_crash", "k": k, "partial": partial}
+                 for k in range(1, nw + 2) for partial in (False, True) if not (k == nw + 1 and partial)]
+        run_list(ctx, mine(ctx, name, crash, salt=ctx.seed))
+        # 2. every reader/writer schedule at write-call granularity
+        sched = [{"model": name, "mode": "cache", "fault": "interleave", "pa": pa, "pb": pb}
+                 for pa in range(0, nw + 1) for pb in range(-1, nw + 1)]
+        run_list(ctx, mine(ctx, name, sched, salt=ctx.seed))
 
-    lap('crash')
-    # 2. every reader/writer schedule at write-call granularity
-    sched = []
-    for name in NAMES:
-        nw = len(infos[name]["writes"])
-        for pa in range(0, nw + 1):
-            for pb in range(-1, nw + 1):
-                sched.append({"model": name, "mode": "cache", "fault": "interleave", "pa": pa, "pb": pb})
-    run_list(ctx, mine(ctx, sched, salt=ctx.seed + 5))
-
-    lap('interleave')
-    # 3. codegen (gcc: 1-3 s CPU per compile, two compiles per case): one case on every second
-    #    shard in quick, on every shard in thorough, spread deterministically over
-    #    fault kind x model x cut position (a single Hypothesis draw per shard would be the
-    #    minimal example in all 16 of them); thorough adds drawn cases
-    kinds = ["truncate", "missing", "write_crash", "truncate"]
-    i = ctx.shard // 2 + ctx.seed if ctx.tier == "quick" else ctx.shard + ctx.seed
-    if ctx.shard == ctx.seed % ctx.nshards:
-        case = {"model": "Decay", "mode": "codegen", "fault": "interleave", "pa": 0, "pb": -1}
-    else:
+    # 3. codegen (gcc: 1-3 s CPU per compile, two compiles per case): one case on every fourth
+    #    shard in quick, on every shard in thorough, spread deterministically over fault kind x
+    #    model x cut position (a single Hypothesis draw per shard would be the minimal example
+    #    in all of them); thorough adds drawn cases
+    kinds = ["truncate", "missing", "write_crash", "interleave", "truncate"]
+    every = 4 if ctx.tier == "quick" else 1
+    if ctx.shard % every == ctx.seed % every and not ctx.over_budget():
+        i = ctx.shard // every + ctx.seed
         case = {"model": CODEGEN_MODELS[(i // len(kinds)) % len(CODEGEN_MODELS)], "mode": "codegen", "fault": kinds[i % len(kinds)]}
         if case["fault"] == "truncate":
             case["permille"] = (ctx.shard * 1000 // ctx.nshards + 37 * ctx.seed) % 1000
         elif case["fault"] == "write_crash":
             case.update(k=1, partial=bool((i // len(kinds)) % 2))
-    if (ctx.tier != "quick" or ctx.shard % 2 == ctx.seed % 2) and not ctx.over_budget():
+        elif case["fault"] == "interleave":
+            case.update(pa=0, pb=-1)
         run_one(ctx, check_case, case)
     if ctx.tier != "quick":
         codegen = st.one_of(
@@ -768,9 +776,7 @@ def shard(ctx):
         )
         drive(ctx, codegen, check_case, ctx.share(0, 160))
 
-    lap('codegen')
     # 4. every byte offset
-    swept = EXHAUSTIVE_QUICK if ctx.tier == "quick" else NAMES
     for name in swept:
         total = len(infos[name]["bytes"])
         stride = BIG_STRIDE if name == "Big" else 1
@@ -782,14 +788,13 @@ def shard(ctx):
             if run_one(ctx, check_case, {"model": name, "mode": "cache", "fault": "truncate", "n": n, "full": False}):
                 ctx.extra["swept_offsets:" + name] += 1
 
-    lap('sweep')
-    # 5. drawn offsets of the models that are not swept
-    rest = [n for n in NAMES if n not in swept]
+    # 5. drawn offsets of the owned models that are not swept (~1200 per quick run)
+    rest = [n for n in owned if n not in swept]
     if rest:
         strat = st.sampled_from(rest).flatmap(
             lambda nm: st.fixed_dictionaries({"model": st.just(nm), "mode": st.just("cache"), "fault": st.just("truncate"),
                                               "n": st.integers(0, len(infos[nm]["bytes"]) - 1), "full": st.just(False)}))
-        drive(ctx, strat, check_case, ctx.share(1200, 0))
+        drive(ctx, strat, check_case, 40 if rest == ["Big"] else 100)
 
 
 def replay(ctx, case):
